@@ -32,6 +32,94 @@ pub struct Program {
     pub user_session: bool,
     pub low_permissions: String,
     pub steps: Vec<Step>,
+    /// how the low session talks to the node: "" / "direct" (process_request, as the unit tests do), or over
+    /// the real front ends "tcp", "ws", "http" (HTTP: every command is a request = a session of its own,
+    /// `login;command`)
+    #[serde(default)]
+    pub low_transport: String,
+    /// the administrator's steps are sent as HTTP requests (`auth ..;use-db d tok;command`), so that the
+    /// same HTTP workers serve administrators and the low session
+    #[serde(default)]
+    pub admin_http: bool,
+}
+
+/// Over a wire a conflict notice (`resolve <op> <db> <version> <key> <old> <new>`, sent without a line end)
+/// arrives in front of whatever the session receives next: separate the notices (notifications, reported
+/// as `<async>`) from the replies of the command.  The new value of a notice is one of the harness's own
+/// `cf<world><n>` tokens.
+fn split_notices(lines: Vec<String>, notes: &mut Vec<String>) -> Vec<String> {
+    let mut out = Vec::new();
+    for l in lines {
+        let mut rest = l.as_str();
+        while rest.starts_with("resolve ") {
+            let cut = rest.find(" cf").and_then(|i| {
+                let tail = &rest[i + 3..];
+                let mut n = 0;
+                for (j, ch) in tail.char_indices() {
+                    if j == 0 {
+                        if ch != 'A' && ch != 'B' {
+                            return None;
+                        }
+                    } else if !ch.is_ascii_digit() {
+                        break;
+                    }
+                    n = j + ch.len_utf8();
+                }
+                Some(i + 3 + n)
+            });
+            match cut {
+                Some(c) if c > 0 => {
+                    notes.push(rest[..c].to_string());
+                    rest = &rest[c..];
+                }
+                _ => break,
+            }
+        }
+        if !(rest.is_empty() && l.starts_with("resolve ")) {
+            out.push(rest.to_string());
+        }
+    }
+    out
+}
+
+enum LowConn {
+    Direct(Session),
+    Tcp(WireClient, Vec<String>),
+    Ws(WsClient, Vec<String>),
+    Http { addr: String, login: String },
+}
+
+impl LowConn {
+    /// everything the low session receives for this command (replies and notifications)
+    fn exec(&mut self, line: &str) -> Vec<String> {
+        match self {
+            LowConn::Direct(s) => {
+                let r = s.exec(line);
+                let mut lines = r.msgs.clone();
+                lines.push(format!("<resp:{}>", match &r.resp {
+                    Resp::Ok => "ok".to_string(),
+                    Resp::Set { key, value } => format!("set {} {}", key, value),
+                    Resp::Value { key, value, version } => format!("value {} {} {}", key, value, version),
+                    Resp::Error(m) => format!("error {}", m),
+                    Resp::VersionError { old_version, version } => format!("version-error {} {}", old_version, version),
+                }));
+                lines
+            }
+            LowConn::Tcp(c, notes) => split_notices(c.request(line, 3_000).unwrap_or_else(|| vec!["<no reply>".into()]), notes),
+            LowConn::Ws(c, notes) => split_notices(c.request(line, 3_000).unwrap_or_else(|| vec!["<no reply>".into()]), notes),
+            LowConn::Http { addr, login } => match http_request(addr, &format!("{};{}", login, line), 3_000) {
+                Some(r) => vec![r],
+                None => vec!["<no reply>".into()],
+            },
+        }
+    }
+    fn drain(&mut self) -> Vec<String> {
+        match self {
+            LowConn::Direct(s) => s.drain(),
+            LowConn::Tcp(_, notes) | LowConn::Ws(_, notes) => std::mem::take(notes),
+            _ => vec![],
+        }
+    }
 }
 
 const KEYARGS: [&str; 10] = ["$$token", "$$user_x", "$$permission_$x", "$$secret", "$secret", "secret", "*", "$$*", "*$$", "$$"];
@@ -62,7 +150,17 @@ fn gen(rng: &mut Rng) -> Program {
             key: KEYARGS[rng.below(KEYARGS.len() as u64) as usize].to_string(),
         });
     }
-    Program { user_session: rng.chance(1, 2), low_permissions: ["rwix *", "r *", "rw s*", "rwix $*"][rng.below(4) as usize].to_string(), steps }
+    let user_session = rng.chance(1, 2);
+    let low_permissions = ["rwix *", "r *", "rw s*", "rwix $*"][rng.below(4) as usize].to_string();
+    // half of the cases go through the real front ends
+    let (low_transport, admin_http) = match rng.below(8) {
+        0 => ("tcp", false),
+        1 => ("ws", false),
+        2 => ("http", false),
+        3 => ("http", true),
+        _ => ("direct", false),
+    };
+    Program { user_session, low_permissions, steps, low_transport: low_transport.to_string(), admin_http }
 }
 
 struct WorldResult {
@@ -108,11 +206,47 @@ fn execute(prog: Program, variant: &'static str) -> WorldResult {
     admin.exec(&format!("set-permissions lo {}", prog.low_permissions));
     admin.exec("set secret pub1");
     admin.exec("set $secret pub2");
-    let mut low = Session::new(&dbs);
     let login = if prog.user_session { "use-db d lo lotok" } else { "use-db d tok" };
-    if low.exec(login).resp.is_err() {
-        return out;
-    }
+    let mut low = match prog.low_transport.as_str() {
+        "tcp" => {
+            let mut c = match WireClient::connect(&w.nodes[0].tcp) {
+                Some(c) => c,
+                None => return out,
+            };
+            if !c.greeting(2_000) || c.request(login, 2_000).is_none() {
+                return out;
+            }
+            LowConn::Tcp(c, Vec::new())
+        }
+        "ws" => {
+            let mut c = match WsClient::connect(&w.nodes[0].ws) {
+                Some(c) => c,
+                None => return out,
+            };
+            if c.request(login, 2_000).is_none() {
+                return out;
+            }
+            LowConn::Ws(c, Vec::new())
+        }
+        "http" => LowConn::Http { addr: w.nodes[0].http.clone(), login: login.to_string() },
+        _ => {
+            let mut low = Session::new(&dbs);
+            if low.exec(login).resp.is_err() {
+                return out;
+            }
+            LowConn::Direct(low)
+        }
+    };
+    // administrator steps: direct, or as HTTP requests served by the same workers as the low session's
+    let http_addr = w.nodes[0].http.clone();
+    let admin_http = prog.admin_http;
+    let admin_do = |admin: &mut Session, cmd: &str| {
+        if admin_http {
+            let _ = http_request(&http_addr, &format!("auth {} {};use-db d tok;{}", USER, PWD, cmd), 3_000);
+        } else {
+            admin.exec(cmd);
+        }
+    };
     out.setup_ok = true;
     let mut n = 1u32;
     for (i, step) in prog.steps.iter().enumerate() {
@@ -120,15 +254,15 @@ fn execute(prog: Program, variant: &'static str) -> WorldResult {
             Step::AdminSetSecret { key } => {
                 n += 1;
                 let val = if key.starts_with("$$permission") { (if variant == "A" { "rwix $s*" } else { "rwix s*" }).to_string() } else { sv("v", n) };
-                admin.exec(&format!("set {} {}", key, val));
+                admin_do(&mut admin, &format!("set {} {}", key, val));
             }
             Step::AdminConflictSecret { key } => {
                 n += 1;
-                admin.exec(&format!("set-safe {} 0 {}", key, sv("cf", n)));
+                admin_do(&mut admin, &format!("set-safe {} 0 {}", key, sv("cf", n)));
             }
             Step::AdminSetPublic { key } => {
                 n += 1;
-                admin.exec(&format!("set {} pub{}", key, n));
+                admin_do(&mut admin, &format!("set {} pub{}", key, n));
             }
             Step::AdminRemoveToken => {
                 let r = admin.exec("remove $$token");
@@ -140,16 +274,8 @@ fn execute(prog: Program, variant: &'static str) -> WorldResult {
             Step::Low { template, key } => {
                 let line = template.replace("{K}", key);
                 let before = dump_db(&dbs, "d").map(|d| secure_view(&d));
-                let r = low.exec(&line);
+                let lines = low.exec(&line);
                 out.low_commands += 1;
-                let mut lines = r.msgs.clone();
-                lines.push(format!("<resp:{}>", match &r.resp {
-                    Resp::Ok => "ok".to_string(),
-                    Resp::Set { key, value } => format!("set {} {}", key, value),
-                    Resp::Value { key, value, version } => format!("value {} {} {}", key, value, version),
-                    Resp::Error(m) => format!("error {}", m),
-                    Resp::VersionError { old_version, version } => format!("version-error {} {}", old_version, version),
-                }));
                 let after = dump_db(&dbs, "d").map(|d| secure_view(&d));
                 if before != after {
                     let word = line.split(' ').next().unwrap_or("").to_string();
@@ -192,7 +318,7 @@ impl Property for C08 {
         (200_000, 4_000_000)
     }
     fn rule(&self) -> &'static str {
-        "a non-administrator session (database token, or user token with one of 4 permission lists) sends 1-6 commands built from 30 command templates (every data command, keys/ls patterns, watch/unwatch, arbiter, resolve, rp-wrapped commands, replicate*, create-user, set-permissions, use-db with secure names as credentials) x 10 key arguments ($$token, $$user_x, $$permission_$x, $$secret, $secret, secret, *, $$*, *$$, $$), interleaved with administrator steps that store world-dependent values under $$ keys, create version conflicts on a $$ key of the (arbiter-strategy) database, write public keys and try to remove $$token. Each case is run twice in identical simulations (same seed and schedule) that differ only in the secret values: the two transcripts of the low session (replies and notifications) must be identical, no low command may change any $$ key, and $$token must survive remove by anyone. Non-trivial: the low session received at least one line. distinct = distinct programs."
+        "a non-administrator session (database token, or user token with one of 4 permission lists; half of the cases as a direct process_request session, the others over the real TCP / WebSocket / HTTP front ends -- over HTTP every command is a request of its own and in some cases the administrator's steps are HTTP requests too, served by the same workers) sends 1-6 commands built from 30 command templates (every data command, keys/ls patterns, watch/unwatch, arbiter, resolve, rp-wrapped commands, replicate*, create-user, set-permissions, use-db with secure names as credentials) x 10 key arguments ($$token, $$user_x, $$permission_$x, $$secret, $secret, secret, *, $$*, *$$, $$), interleaved with administrator steps that store world-dependent values under $$ keys, create version conflicts on a $$ key of the (arbiter-strategy) database, write public keys and try to remove $$token. Each case is run twice in identical simulations (same seed and schedule) that differ only in the secret values: the two transcripts of the low session (replies and notifications) must be identical, no low command may change any $$ key, and $$token must survive remove by anyone. Non-trivial: the low session received at least one line. distinct = distinct programs."
     }
     fn assumptions(&self) -> Vec<String> {
         vec![
@@ -201,7 +327,7 @@ impl Property for C08 {
         ]
     }
     fn components(&self) -> Json {
-        json!({"real": ["process_request", "security", "consensus_ops (arbiter notices)", "bo::Database (watchers, list_keys)"], "simulated": ["threads", "clock"], "stub": []})
+        json!({"real": ["process_request", "security", "consensus_ops (arbiter notices)", "bo::Database (watchers, list_keys)", "tcp_ops / ws_ops handler / http_ops workers (half of the cases)"], "simulated": ["threads", "clock", "TCP", "ws and tiny_http wire layers"], "stub": []})
     }
     fn run_one(&self, scenario: &str, ctx: &RunCtx) -> RunReport {
         let mut rng = Rng::new(ctx.seed);
